@@ -40,6 +40,16 @@ def scenarios(thorough):
     for body, text in (("three", False), ("big", True), ("one", False)):
         out.append(base_cfg(body=body, text_mode=text, dest_present=True, warm_saver=True))
         out.append(base_cfg(body=body, text_mode=text, dest_present=True, warm_saver=True, perms=0o600))
+    # the documented manual protocol instead of the with statement
+    for body, at in (("three", -1), ("big", -1), ("three", 1)):
+        for dp in (False, True):
+            out.append(base_cfg(body=body, raise_at=at, dest_present=dp, manual_protocol=True))
+    # buffering: unbuffered binary, line-buffered text, a tiny buffer that spills in the middle of the body
+    for body in ("three", "many", "big"):
+        out.append(base_cfg(body=body, text_mode=False, buffering=0))
+        out.append(base_cfg(body=body, text_mode=True, buffering=1))
+        out.append(base_cfg(body=body, text_mode=False, buffering=16, dest_present=False))
+        out.append(base_cfg(body=body, text_mode=True, buffering=16))
     # the part file on another file system (part_file= given as an absolute path): publishing by rename is impossible
     for dp in (False, True):
         for text in (False, True):
